@@ -132,6 +132,8 @@ def normalize_power(case, ctx):
     a = case["a"]
     if not np.any(a):
         raise Skip("all_zero_array")
+    if not (1e-100 < float(np.max(np.abs(a))) < 1e100):
+        raise Skip("underflow_overflow_regime")        # |a|^2 is not representable: outside the stated bounds
     p = 1.0 if case["default"] else case["power"]
     ctx.tag("complex" if np.iscomplexobj(a) else "real", "default_power" if case["default"] else None)
     ctx.nontrivial_if(np.count_nonzero(a) >= 2)
